@@ -83,6 +83,8 @@ func drawBase(t *rapid.T, x *X, maxLen int) *Case {
 	if gspec.U(t, 3, "fname") == 0 {
 		c.Opts.Filename = gspec.Pick(t, []string{"f.txt", "dir/a b.peg", "100%d/%s.txt", "f.txt"}, "filename")
 	}
+	// an option value is immutable: a tenth of the cases pass every option value twice
+	c.Opts.DupOpts = gspec.U(t, 10, "dupopts") == 0
 	// the three entry points are one parser: a fifth of the cases go through ParseReader or
 	// ParseFile (the file is written by the adapter; its name is the filename of the case)
 	switch gspec.U(t, 10, "entrypoint") {
@@ -422,6 +424,33 @@ func lrErrLost(ref *refpeg.Result, resp *vrt.Response) bool {
 	return j == len(resp.Errs)
 }
 
+// compareErrorSets compares the returned messages with the reference's as sets.
+func compareErrorSets(ref *refpeg.Result, resp *vrt.Response) string {
+	want := map[string]bool{}
+	for _, w := range ref.Errs {
+		want[w.Msg] = true
+	}
+	got := map[string]bool{}
+	for _, g := range resp.Errs {
+		got[g.Msg] = true
+	}
+	for _, w := range ref.Errs {
+		if !got[w.Msg] && !got[w.AltMsg] {
+			return fmt.Sprintf("error %q is missing from the returned list %q", w.Msg, trunc(resp.ErrText, 300))
+		}
+	}
+	alt := map[string]bool{}
+	for _, w := range ref.Errs {
+		alt[w.AltMsg] = true
+	}
+	for _, g := range resp.Errs {
+		if !want[g.Msg] && !alt[g.Msg] {
+			return fmt.Sprintf("returned error %q is not among the expected %q", g.Msg, trunc(ref.ErrText, 300))
+		}
+	}
+	return ""
+}
+
 func checkC11(x *X, c *Case, strict bool) *Outcome {
 	g := x.G.Spec
 	ref := refpeg.Eval(g, c.Input, refOpts(c))
@@ -471,7 +500,13 @@ func checkC11(x *X, c *Case, strict bool) *Outcome {
 			continue
 		}
 		if !lrOnce(ref) {
-			o.Tags = append(o.Tags, "lr_reinvoked_outcome_only")
+			// the order in which re-invoked left-recursive rules report is not fixed by the
+			// denotation; which messages are reported is
+			o.Tags = append(o.Tags, "lr_reinvoked_error_set_only")
+			if d := compareErrorSets(ref, resp); d != "" {
+				o.Viol = viol(pk, c, "error_set", d, describeRef(ref), describeResp(resp))
+				return o
+			}
 		} else if d := compareErrors(ref, resp, ctx); d != "" {
 			o.Viol = viol(pk, c, "error_list", d, describeRef(ref), describeResp(resp))
 			return o
@@ -586,6 +621,17 @@ func drawC17(t *rapid.T, x *X) *Case {
 	}
 	c.Opts.AllowInvalid = rapid.Bool().Draw(t, "allowinvalid")
 	c.Plan = drawPlan(t, x.G.Spec, 0, false, false)
+	if gspec.U(t, 60, "manyinvalid") == 0 && x.G.Spec.Rule("Loop") != nil {
+		// a long input with well over a hundred invalid bytes (one error per invalid offset
+		// advanced onto, however many there are)
+		var in []byte
+		pieces := [][]byte{{0xff}, {0xc0, 0x80}, {0xed, 0xa0, 0x80}, {0xe2, 0x82}, {0x80}, []byte("a"), []byte("é"), []byte("\n")}
+		for len(in) < 400 {
+			in = append(in, gspec.Pick(t, pieces, "invalidpiece")...)
+		}
+		c.Input = in
+		c.Entry = "Loop"
+	}
 	return c
 }
 
